@@ -111,7 +111,7 @@ def _viol_once(rep, rid, key, msg, loc=None):
 
 
 
-def moved_ok(C, groups, lookup, path_of, key, n):
+def moved_ok(C, groups, lookup, path_of, key, n, census_name=None):
     """helper-extraction tolerance for the table censuses: see Census.moved_from_reviewed. groups: {(fn_key, kind): [sites]},
     lookup(fn_key, kind) -> reviewed count or None, path_of: fn_key -> def path. Budget taken from a caller is remembered."""
     fk, kind = key
@@ -127,6 +127,10 @@ def moved_ok(C, groups, lookup, path_of, key, n):
         if cnt is None:
             return None
         return cnt - cur.get((gk, kind), 0) - used.get((gk, kind), 0)
+    if census_name:
+        from .census import within_root_budget, root_key
+        if within_root_budget(census_name, groups, fk, kind):
+            return [root_key(fk)]
     path = path_of.get(fk)
     if not path:
         return None
@@ -136,6 +140,9 @@ def moved_ok(C, groups, lookup, path_of, key, n):
             gk = C.fn_key(g)
             used[(gk, kind)] = used.get((gk, kind), 0) + n
     return tops
+
+
+LAST_GROUPS = {}
 
 
 def census_part(F, C, R, rep, tag=''):
@@ -155,7 +162,7 @@ def census_part(F, C, R, rep, tag=''):
         fk1 = C.fn_key(fn)
         if verdict:
             rep.ok('R14.1', tag + key, '%s: %s' % (verdict, reason))
-        elif (fk1, kind) in moved_seen or (reviewed_panics(fk1, kind) is None and moved_ok(C, pgroups, reviewed_panics, ppaths, (fk1, kind), len(pgroups[(fk1, kind)]))):
+        elif (fk1, kind) in moved_seen or (reviewed_panics(fk1, kind) is None and moved_ok(C, pgroups, reviewed_panics, ppaths, (fk1, kind), len(pgroups[(fk1, kind)]), 'panic')):
             moved_seen.add((fk1, kind))
             rep.ok('R14.1', tag + key + ' (moved)', 'helper reached only from reviewed functions that lost at least as many %s sites' % kind)
         else:
@@ -225,7 +232,7 @@ def census_part(F, C, R, rep, tag=''):
         elif ent:
             _viol_once(rep, 'R14.2', '%s|%s|count' % (fk, kind), '%s now has %d unguarded %s assert(s), the reviewed table covers %d: new machine arithmetic on possibly user-controlled values needs review'
                      % (fk, len(lst), kind, ent[1]), lst[-1][0].loc(lst[-1][1]))
-        elif moved_ok(C, per, lambda g, k: next((row[2] for row in T.ARITH_TABLE if row[1] == k and re.search(row[0], g)), None), {C.fn_key(x[0].path): x[0].path for v in per.values() if isinstance(v, list) for x in v}, (fk, kind), len(lst)):
+        elif moved_ok(C, per, lambda g, k: next((row[2] for row in T.ARITH_TABLE if row[1] == k and re.search(row[0], g)), None), {C.fn_key(x[0].path): x[0].path for v in per.values() if isinstance(v, list) for x in v}, (fk, kind), len(lst), 'arith'):
             rep.ok('R14.2', tag + '%s %s x%d (moved)' % (fk, kind, len(lst)), 'helper reached only from reviewed functions that lost at least as many such asserts')
         else:
             _viol_once(rep, 'R14.2', '%s|%s' % (fk, kind), 'unguarded machine arithmetic (%s x%d) in %s: panics in debug builds / wraps in release for extreme values'
@@ -256,7 +263,7 @@ def census_part(F, C, R, rep, tag=''):
         elif ent:
             _viol_once(rep, 'R14.9', '%s|index:%s|count' % (fk, kind), '%s now has %d %s indexing operations, %d were reviewed: an index that is not provably in range panics instead of raising an index error'
                        % (fk, len(lst), kind, ent[0]), lst[-1][0].loc(lst[-1][1]))
-        elif moved_ok(C, perk, lambda g, k: next((cnt for rx, kk, cnt, _r in T.INDEX_TABLE if kk == k and re.search(rx, g)), None), {C.fn_key(x[0].path): x[0].path for v in perk.values() if isinstance(v, list) for x in v}, (fk, kind), len(lst)):
+        elif moved_ok(C, perk, lambda g, k: next((cnt for rx, kk, cnt, _r in T.INDEX_TABLE if kk == k and re.search(rx, g)), None), {C.fn_key(x[0].path): x[0].path for v in perk.values() if isinstance(v, list) for x in v}, (fk, kind), len(lst), 'index'):
             rep.ok('R14.9', tag + '%s %s x%d (moved)' % (fk, kind, len(lst)), 'helper reached only from reviewed functions of this kind that lost at least as many sites')
         else:
             what = {'str-range': 'slicing a str by byte positions panics when a position is not a char boundary (or out of range)',
@@ -288,11 +295,13 @@ def census_part(F, C, R, rep, tag=''):
             rep.ok('R14.10', tag + '%s %s x%d' % (fk, api, len(lst)), 'reviewed: ' + ent[1])
         elif ent:
             _viol_once(rep, 'R14.10', '%s|%s|count' % (fk, api), '%s now calls %s %d time(s), %d were reviewed: the call panics when its position / range / radix argument is out of range' % (fk, api, len(lst), ent[0]), lst[-1].loc())
-        elif moved_ok(C, pers, lambda g, k: next((cnt for rx, kk, cnt, _r in T.STDPRE_TABLE if kk == k and re.search(rx, g)), None), {C.fn_key(x.body.path): x.body.path for v in pers.values() if isinstance(v, list) for x in v}, (fk, api), len(lst)):
+        elif moved_ok(C, pers, lambda g, k: next((cnt for rx, kk, cnt, _r in T.STDPRE_TABLE if kk == k and re.search(rx, g)), None), {C.fn_key(x.body.path): x.body.path for v in pers.values() if isinstance(v, list) for x in v}, (fk, api), len(lst), 'stdpre'):
             rep.ok('R14.10', tag + '%s %s x%d (moved)' % (fk, api, len(lst)), 'helper reached only from reviewed functions that lost at least as many such calls')
         else:
             _viol_once(rep, 'R14.10', '%s|%s' % (fk, api), 'unreviewed call of %s in %s (x%d), reachable from the pure language: it panics on an out-of-range position, an inverted or out-of-range range, a non-boundary string position, a zero size or a radix above 36' % (api, fk, len(lst)), lst[0].loc())
     rep.floor('R14.10', 'std precondition call sites examined', len(ssites), 50)
+    if not tag:
+        LAST_GROUPS.update({'panic': pgroups, 'arith': per, 'index': perk, 'stdpre': pers})
 
 
 def run(F, rep, tier):
@@ -334,26 +343,16 @@ def run(F, rep, tier):
     # ---------------- R14.3
     rep.rule('R14.3', 'NRes values are not silently dropped: every .ok() / is_err() / is_ok() / unwrap_or* on a Result<_, NErr> and every '
              'Err(_) arm over such a result is in the reviewed table')
-    nd = 0
+    idioms = {}
     for b in F.all_bodies():
         if b.path not in R:
             continue
         for c in b.calls:
             last = c.target.rsplit('::', 1)[-1]
             g = c.callee.get('g') or []
-            if 'result::Result' in c.target and last in ('ok', 'unwrap_or', 'unwrap_or_default', 'unwrap_or_else', 'is_ok', 'is_err', 'err', 'or', 'or_else', 'unwrap_or_default') \
+            if 'result::Result' in c.target and last in ('ok', 'unwrap_or', 'unwrap_or_default', 'unwrap_or_else', 'is_ok', 'is_err', 'err', 'or', 'or_else') \
                     and any('core::NErr' in x for x in g[:2]):
-                nd += 1
-                fk = C.fn_key(b.path)
-                reason = None
-                for rx, why in T.DISCARD_TABLE:
-                    if re.search(rx, fk):
-                        reason = why
-                if reason:
-                    rep.ok('R14.3', '%s: Result::%s' % (fk, last), 'reviewed: ' + reason)
-                else:
-                    rep.viol('R14.3', '%s|discard|%s' % (fk, last), 'an NRes is inspected or discarded with Result::%s in %s: an error could be swallowed instead of propagated' % (last, fk), c.loc())
-    wild = {}
+                idioms.setdefault(C.fn_key(b.path), []).append(('Result::' + last, c.loc()))
     for fn, ms in F.matches.items():
         if fn not in R:
             continue
@@ -362,17 +361,19 @@ def run(F, rep, tier):
                 continue
             for a in m['arms']:
                 if re.search(r'Err\(_\)', pat_str(a['pat'])):
-                    wild.setdefault(C.fn_key(fn), []).append(a)
-    for fk, lst in sorted(wild.items()):
+                    idioms.setdefault(C.fn_key(fn), []).append(('Err(_) arm', F.loc(a['sp'])))
+    nd = sum(len(v) for v in idioms.values())
+    for fk, lst in sorted(idioms.items()):
         ent = None
-        for rx, cnt, why in T.ERR_WILD_ARMS:
+        for rx, cnt, why in T.DISCARD_BUDGET:
             if re.search(rx, fk):
                 ent = (cnt, why)
+        forms = sorted({x[0] for x in lst})
         if ent and len(lst) <= ent[0]:
-            rep.ok('R14.3', '%s: %d Err(_) arm(s)' % (fk, len(lst)), 'reviewed: ' + ent[1])
+            rep.ok('R14.3', '%s: %d x %s' % (fk, len(lst), forms), 'reviewed: ' + ent[1])
         else:
-            rep.viol('R14.3', '%s|err-wild-arm' % fk, '%s has %d arm(s) matching Err(_) on an NRes (reviewed: %s): the error value is ignored' % (fk, len(lst), ent[0] if ent else 0), F.loc(lst[-1]['sp']))
-    rep.floor('R14.3', 'discarding idioms examined', nd + sum(len(v) for v in wild.values()), 10)
+            rep.viol('R14.3', '%s|discard' % fk, '%s inspects or drops an NRes without propagating its error %d time(s) (%s; reviewed: %d): an error could be swallowed instead of reaching try/catch' % (fk, len(lst), forms, ent[0] if ent else 0), lst[-1][1])
+    rep.floor('R14.3', 'discarding idioms examined', nd, 10)
 
     # ---------------- R14.4
     rep.rule('R14.4', 'every NErr::*_error constructor builds NErr::Throw; NErr::Break / Continue / Return are built only in evaluate (their '
